@@ -201,7 +201,7 @@ def jobs(tier, seed):
                 Ls = [L for L in (list(range(0, 10)) + [12, 15, 16, 17, 24, 31, 32, 33, 34, 35, 39, 40, 41, 47, 48, 49, 63, 64, 65, 66, 71, 80, 96, 97, 100]) if L <= top]
         else:
             Ls = list(range(0, top + 1))
-        if top not in Ls: Ls.append(top)
+        if top not in Ls and not (tier == 'quick' and tag_kind(tag) != 'scanner'): Ls.append(top)
         for L in Ls:
             fixed = None
             if cls == 'value' and L > 8:
